@@ -28,7 +28,7 @@ def plan(tier):
                 'transport rewrites responses into every failure reason with messages of length 0-200 or no message, '
                 'non-success statuses, and truncations at every byte class; every emitted request is fed to the '
                 'server decoder; a cell is (method, version, response class, outcome)',
-        'min_monitor': {'inconsistent_responses_checked': 300, 'client_calls': 1500, 'results_compared_with_wire': 300, 'failures_compared': 500, 'request_arguments_checked': 400, 'batch_results_compared': 300,
+        'min_monitor': {'responses_with_an_undecodable_attribute': 60, 'inconsistent_responses_checked': 300, 'client_calls': 1500, 'results_compared_with_wire': 300, 'failures_compared': 500, 'request_arguments_checked': 400, 'batch_results_compared': 300,
                         'truncations_checked': 200, 'requests_checked_decodable': 1000},
         'assumptions': ['a legal failure response carries status, reason and an optional message',
                         'responses with a wrong operation echo or a wrong item count are not legal and are not generated'],
@@ -286,6 +286,18 @@ def calls(rng, env, version):
     out.append(('get_attributes', lambda c: c.get_attributes(rng.choice((uid_any, env['sym'].uid, env['sympre'].uid)), rng.choice((
         None, ['Name', 'State'], ['Object Type'], ['Name'], ['Object Group', 'Name'], ['Application Specific Information'],
         ['State', 'Name', 'Object Group', 'Application Specific Information', 'Cryptographic Usage Mask']))), ga_check))
+    if version < E.KMIPVersion.KMIP_2_0:
+        # a GetAttributes answer holding an attribute the client cannot decode (an attribute it has no value class for, an
+        # enumeration value that is not defined, a value of another type than the attribute has): the call raises - the
+        # attributes that could be decoded are not "the data carried by the response"
+        bad_attr = rng.choice((
+            (0x420008, T.STRUCTURE, [(0x42000A, T.TEXT, 'Link'), (0x42000B, T.STRUCTURE, [(0x42004B, T.ENUM, 0x101), (0x42004C, T.TEXT, '17')])]),
+            (0x420008, T.STRUCTURE, [(0x42000A, T.TEXT, 'State'), (0x42000B, T.ENUM, 99)]),
+            (0x420008, T.STRUCTURE, [(0x42000A, T.TEXT, 'Cryptographic Length'), (0x42000B, T.TEXT, 'long')]),
+            (0x420008, T.STRUCTURE, [(0x42000A, T.TEXT, 'Usage Limits'), (0x42000B, T.STRUCTURE, [(0x420096, T.LONG, 5), (0x420095, T.LONG, 5), (0x420097, T.ENUM, 1)])])))
+        good = (0x420008, T.STRUCTURE, [(0x42000A, T.TEXT, 'Object Type'), (0x42000B, T.ENUM, 2)])
+        kids_ = [(T.T_UNIQUE_IDENTIFIER, T.TEXT, env['sym'].uid)] + rng.choice(([good, bad_attr], [bad_attr, good], [bad_attr], [good, bad_attr, good]))
+        out.append(('get_attributes!undecodable', lambda c: c.get_attributes(env['sym'].uid), lambda res, p: 'returned %r' % (res,), kids_))
     out.append(('get_attribute_list', lambda c: c.get_attribute_list(uid_any),
                 lambda res, p: None if sorted(res) == sorted(
                     [it[2] for _, it in T.walk(p) if it[0] == 0x42000A and it[1] == T.TEXT] or
@@ -884,6 +896,14 @@ def run_case(ctx, case):
                         continue
                     # success
                     ctx.cell(name, vname, 'success', type(raised).__name__ if raised else 'returned')
+                    if name.endswith('!undecodable'):
+                        if script is None or mode != 'plain':
+                            continue
+                        ctx.count('responses_with_an_undecodable_attribute')
+                        if raised is None:
+                            ctx.violation('%s|returned' % name, '%s returned %r for a response holding an attribute that cannot be decoded'
+                                          % (name, str(result)[:200]), detail)
+                        continue
                     if raised is not None:
                         ctx.violation('%s|success|raised:%s' % (name, type(raised).__name__),
                                       '%s raised %s: %s for a successful response' % (name, type(raised).__name__, str(raised)[:160]), detail)
